@@ -64,12 +64,12 @@ Calls == LET pi == Parse(U)  d == Decode(pi) IN
 DesignOK == DataUriOK(U, Design(U, kind), Regs, Calls)
 \* the design is a projection: a second pass changes nothing (no minifier registered)
 DesignIdem == kind = "none" => Design(Design(U, kind), kind) = Design(U, kind)
-(* the transcription of the pinned code (DataUriAsIs) violates the relation only on the narrow constructs
-   of the pinned findings: K1..K5a decided on the input, K5b = the moderately growing minifier *)
+(* the transcription of the current code (DataUriAsIs) violates the relation only on the narrow construct
+   of the remaining pinned finding K4, for every kind of registered minifier *)
 AsIsOKOutsideKnown ==
   LET o == AsIsUri(U, kind # "none", LAMBDA x : SubFn(kind, x))
       c == IF kind = "none" THEN <<>> ELSE AsIsCalls(U, LAMBDA x : SubFn(kind, x))
-  IN ~DataUriOK(U, o, Regs, c) => (KnownUri(U) \/ kind = "grow3")
+  IN ~DataUriOK(U, o, Regs, c) => KnownUri(U)
 \* codecs: encode/decode round trips, encoders produce validly encoded text of the predicted length
 CodecOK == /\ B64Strict(B64Encode(pay)) /\ B64Decode(B64Encode(pay)) = pay
            /\ PctValid(PctEncodeWith(pay, MustEscape)) /\ PctDecode(PctEncodeWith(pay, MustEscape)) = pay
